@@ -370,7 +370,7 @@ func CompileList(list List) (f Object) {
 						},
 					}
 				}
-				CurrentPackage.funcs[name] = &FuncInfo{Create: fc, Pkg: CurrentPackage, Export: true}
+				CurrentPackage.funcs[name] = &FuncInfo{Name: name, Create: fc, Pkg: CurrentPackage, Export: true}
 				f = fc(list[1:])
 			}
 			if funk, ok := f.(Funky); ok {
